@@ -6,16 +6,20 @@ Import ListNotations.
 Local Open Scope string_scope.
 Local Open Scope list_scope.
 
-(* default namespace = last URL segment without leading underscore / extension (modulo -/_), for EVERY
-   URL whose last segment carries neither; the text after the last `:`/`/` IS the last segment for all URLs *)
-Theorem C37_namespace : forall url, known_K1 url = false ->
-  norm (default_namespace url) = norm (spec_namespace url).
+(* default namespace (full strength since fix 18a59ef; F33 is gone): for EVERY directory part (empty, or anything
+   ending in `/` or `:`), EVERY base name without separators and dots that does not start with `_`, with or
+   without the partial underscore, with or without .scss / .sass / .css: the namespace is the base name
+   (`_` shown as `-`, which is the same name) *)
+Theorem C37_namespace : forall dir base us x,
+  (dir = "" \/ exists d c, is_sep c = true /\ dir = String.append d (String c "")) ->
+  all_not is_sep base = true -> all_not is_dot base = true -> starts_us base = false ->
+  default_namespace (String.append dir (String.append (us_str us) (String.append base (ext_str x)))) = disp base.
 Proof. exact namespace_ok. Qed.
 Print Assumptions C37_namespace.
-Theorem C37_refuted_namespace : exists url, known_K1 url = true /\
-  norm (default_namespace url) <> norm (spec_namespace url).
-Proof. exists "_lib". exact refuted_namespace. Qed.
-Print Assumptions C37_refuted_namespace.
+(* the text after the last `:` / `/` is the reference's last segment, for all URLs *)
+Theorem C37_last_segment : forall s cur, after_last_from s cur = last (split_on url_sep s cur) EmptyString.
+Proof. exact after_last_is_last_segment. Qed.
+Print Assumptions C37_last_segment.
 
 (* @forward show / hide / as p-* filter and rename exactly the listed members: ALL member sets, prefixes and
    lists (full strength since fix 2f8ada8; F29 is gone) *)
@@ -63,7 +67,7 @@ Proof. split; reflexivity. Qed.
 Print Assumptions C37_builtin_guard.
 
 Example C37_nonvacuous :
-  known_K1 "sub/my_lib" = false /\ default_namespace "sub/my_lib" = "my-lib"
+  default_namespace "sub/_my_lib.scss" = "my-lib"
   /\ forward_view lib None (EHide ["f"; "m"] ["v"]) = mkMem [("w", 2%Z)] ["g"] ["n"]
   /\ forward_view lib (Some "p-") (EShow ["p-f"] ["p-v"]) = mkMem [("p-v", 1%Z)] ["p-f"] []
   /\ configure [("v", 1%Z, true); ("w", 2%Z, false)] [("v", 5%Z)] = Some [("v", 5%Z); ("w", 2%Z)].
